@@ -21,6 +21,14 @@ C04, the bit table of docs/source/userguide/output.rst and the "NaN exactly when
       not at all where the whole interval is outside (bit 2: is "all" a "part"?) or no candidate is in-image (bit 7:
       vacuous truth) - the statement is ambiguous there.
   (d) no value >= 4096 (and none < 0).
+  subpix: the chain is also run with matching-cost subpix 2 and 4 (the disparity axis of the cost volume then holds the
+      fractional disparities too) on right masks with masked / nodata bands and border patches at least as wide as the
+      global interval, and on the exhaustive 1x8 right rows.  The oracle is unchanged: the causes are stated over the
+      global interval, i.e. the integer candidates col+d, d in [dmin, dmax]; a fractional candidate is interpolated from
+      its two integer neighbours (both inside the interval), so it is in-image / non-masked / computable only if both
+      neighbours are, and adding the fractional candidates changes the truth of none of the causes above.  (a) is
+      evaluated on the whole oversampled cost volume.  A violation seen with subpix > 1 is re-run with subpix 1 and is
+      classed '<class>/only-with-subpix>1' when it does not reproduce there.
 
 Part 2 ("pipeline"): full pipelines, accepted by check_configuration.check_pipeline_section, are run step by step
 exactly as pandora.run does (run_prepare, machine.run(step) for each step, run_exit); the validity masks of the left
@@ -100,12 +108,12 @@ def make_meta(h, w, disp):
 # ----------------------------------------------------------------------------------------------------------------------
 # part 1 : real chain + oracle
 # ----------------------------------------------------------------------------------------------------------------------
-def real_chain(left, right, window, inv, measure):
+def real_chain(left, right, window, inv, measure, subpix=1):
     """sequence of PandoraMachine.matching_cost_prepare, matching_cost_run, disparity_run (left side)"""
     from pandora import matching_cost, disparity
     from pandora.criteria import validity_mask
 
-    mc_ = matching_cost.AbstractMatchingCost(matching_cost_method=measure, window_size=int(window), subpix=1)
+    mc_ = matching_cost.AbstractMatchingCost(matching_cost_method=measure, window_size=int(window), subpix=int(subpix))
     disp_min = left["disparity"].sel(band_disp="min").data
     disp_max = left["disparity"].sel(band_disp="max").data
     cv = mc_.allocate_cost_volume(left, (disp_min, disp_max), None)
@@ -222,6 +230,7 @@ def evaluate_chain(case):
     h, w = im_l.shape
     window = int(case["window"])
     inv = float(case["inv"])
+    subpix = int(case.get("subpix") or 1)
     if case.get("grids") is not None:
         gmin, gmax = np.asarray(case["grids"][0]).astype(int), np.asarray(case["grids"][1]).astype(int)
         left = make_img(im_l, lay_l, enc, grids=(gmin, gmax))
@@ -232,7 +241,7 @@ def evaluate_chain(case):
     right = make_img(im_r, lay_r, enc)
     with warnings.catch_warnings():
         warnings.simplefilter("ignore")
-        cv, disp = real_chain(left, right, window, inv, case["measure"])
+        cv, disp = real_chain(left, right, window, inv, case["measure"], subpix)
     mask = np.asarray(disp["validity_mask"].data).astype(np.int64)
     cost = np.asarray(cv["cost_volume"].data)
     dmap = np.asarray(disp["disparity_map"].data)
@@ -253,13 +262,18 @@ def evaluate_chain(case):
     for bit, (expected, checkable) in exp.items():
         stat("chain.bit%d.compared" % bit, checkable.sum())
         stat("chain.bit%d.compared_and_expected_set" % bit, (checkable & expected).sum())
+        if subpix > 1:
+            stat("chain.subpix>1.bit%d.compared" % bit, checkable.sum())
+            stat("chain.subpix>1.bit%d.compared_and_expected_set" % bit, (checkable & expected).sum())
+    if subpix > 1:
+        stat("chain.subpix>1.runs", 1)
     info = {"nontrivial": bool((inner & any_comp).any() and (inner & (mask != 0)).any()), "mask": mask}
     return viol, info
 
 
-def chain_case(im_l, im_r, lay_l, lay_r, enc, window, inv, measure, disp=None, grids=None):
+def chain_case(im_l, im_r, lay_l, lay_r, enc, window, inv, measure, disp=None, grids=None, subpix=1):
     return {"part": "chain", "im_left": im_l, "im_right": im_r, "layout_left": lay_l, "layout_right": lay_r,
-            "enc": int(enc), "window": int(window), "inv": float(inv), "measure": measure,
+            "enc": int(enc), "window": int(window), "inv": float(inv), "measure": measure, "subpix": int(subpix),
             "disp": None if disp is None else [int(disp[0]), int(disp[1])],
             "grids": None if grids is None else [np.asarray(grids[0]), np.asarray(grids[1])]}
 
@@ -316,9 +330,39 @@ def pick_measure(rng, window, h):
     return str(rng.choice(cands))
 
 
+SUBPIX_ONLY = "/only-with-subpix>1"
+
+
+def already_recorded(rec, clause, cls):
+    return any(v["clause"] == clause and v["witness_class"] == cls for v in rec.violations)
+
+
+def refine_subpix(rec, viol, case):
+    """a violation found with subpix 2/4 is re-run with subpix 1 (same images, masks, interval): when it reproduces there
+    the subpix-1 case is the (smaller) witness and the class is unchanged; otherwise the class says that the failure
+    needs the oversampled disparity axis.  Returns [(violation, case to record)]"""
+    if int(case.get("subpix") or 1) == 1:
+        return [(v, case) for v in viol]
+    todo = [v for v in viol if not (already_recorded(rec, v[0], v[1]) and already_recorded(rec, v[0], v[1] + SUBPIX_ONLY))]
+    if not todo:
+        return []
+    base = dict(case)
+    base["subpix"] = 1
+    v1, _ = evaluate_chain(base)
+    out = []
+    for v in todo:
+        hit = [u for u in v1 if u[0] == v[0] and u[1] == v[1]]
+        if hit:
+            out.append((hit[0], base))
+        else:
+            out.append(((v[0], v[1] + SUBPIX_ONLY, "subpix %d: %s (same inputs with subpix 1: no such violation)" %
+                         (case["subpix"], v[2]), v[3]), case))
+    return out
+
+
 def record(rec, viol, case):
-    for clause, cls, msg, pixel in viol:
-        wit = dict(case)
+    for (clause, cls, msg, pixel), wcase in refine_subpix(rec, viol, case):
+        wit = dict(wcase)
         wit.update({"clause": clause, "witness_class": cls, "pixel": list(pixel)})
         rec.violation(clause=clause, witness_class=cls, message=msg, witness=wit)
 
@@ -361,6 +405,86 @@ def run_chain_direct(rec, rng, n_random_per_combo, interval_stride):
     return count
 
 
+# structured right masks x subpix ---------------------------------------------------------------------------------------
+BAND_KINDS = ["band", "band-with-hole", "patch-right-border", "patch-left-border", "band+patch-right-border",
+              "band-invalid-and-nodata", "two-half-bands"]
+BAND_INTERVALS = [(-2, 2), (-1, 1), (0, 2), (-2, 0), (1, 3), (-3, -1), (0, 0), (-3, 3), (0, 1), (-1, 0), (2, 2), (-4, 1)]
+BAND_COMBOS = [(1, 12, 1), (2, 14, 1), (4, 14, 3), (5, 15, 3), (3, 16, 3), (6, 16, 5)]  # rows, cols, window
+
+
+def structured_right_layout(rng, h, w, off, n_d, kind):
+    """right mask layouts that bits 7 / 1 need: a masked (or nodata) region as wide as the global interval (n_d integer
+    disparities) or wider, in the middle of the image or against its left / right border"""
+    lay = np.full((h, w), V)
+    val = I if rng.random() < 0.7 else N
+    other = N if val == I else I
+    bw = int(min(w - 2, n_d + int(rng.integers(0, 3)) + 2 * off * int(rng.integers(0, 2))))  # band width >= n_d
+    b0 = int(rng.integers(0, w - bw + 1))
+    r0 = int(rng.integers(0, max(1, h - 1)))
+    r1 = int(rng.integers(r0 + 1, h + 1))
+    pw = int(min(w - 1, off + int(rng.integers(1, n_d + 3))))  # patch width (from the image edge)
+    if kind == "band":
+        lay[:, b0 : b0 + bw] = val
+    elif kind == "band-with-hole":  # one valid column inside the band, on some rows: the cause of bit 7 / 1 does not hold there
+        lay[:, b0 : b0 + bw] = val
+        hole = b0 + int(rng.integers(0, bw))
+        lay[rng.random(h) < 0.6, hole] = V
+    elif kind == "patch-right-border":
+        lay[r0:r1, w - pw :] = val
+    elif kind == "patch-left-border":
+        lay[r0:r1, :pw] = val
+    elif kind == "band+patch-right-border":
+        lay[:, b0 : b0 + bw] = val
+        lay[r0:r1, w - pw :] = val if rng.random() < 0.5 else other
+    elif kind == "band-invalid-and-nodata":  # every pixel of the band is non-valid, but not all for the same reason
+        lay[:, b0 : b0 + bw] = np.where(rng.random((h, bw)) < 0.3, other, val)
+    elif kind == "two-half-bands":
+        lay[:, b0 : b0 + bw // 2] = val
+        lay[:, b0 + bw // 2 : b0 + bw] = other
+    else:
+        raise ValueError(kind)
+    return lay
+
+
+def run_chain_bands(rec, rng, n_intervals, n_grids, subpixes=(1, 2, 4)):
+    """genuine small images whose RIGHT mask holds bands / border patches of masked or nodata pixels at least as wide as
+    the global interval, left mask none / all valid / sparse; every case is run with every subpix of `subpixes`"""
+    count = 0
+    for h, w, window in BAND_COMBOS:
+        off = (window - 1) // 2
+        for kind in BAND_KINDS:
+            for j in range(n_intervals + n_grids):
+                disp = BAND_INTERVALS[int(rng.integers(0, len(BAND_INTERVALS)))]
+                n_d = disp[1] - disp[0] + 1
+                grids = None
+                if j >= n_intervals:  # per-pixel intervals inside the global one; two pixels carry its ends
+                    a = rng.integers(disp[0], disp[1] + 1, (h, w))
+                    b = rng.integers(disp[0], disp[1] + 1, (h, w))
+                    grids = (np.minimum(a, b), np.maximum(a, b))
+                    grids[0][int(rng.integers(0, h)), int(rng.integers(0, w))] = disp[0]
+                    grids[1][int(rng.integers(0, h)), int(rng.integers(0, w))] = disp[1]
+                im_l = rng.integers(0, 12, (h, w))
+                im_r = rng.integers(0, 12, (h, w))
+                lay_r = structured_right_layout(rng, h, w, off, n_d, kind)
+                k = int(rng.integers(0, 4))
+                lay_l = None if k == 0 else (np.full((h, w), V) if k == 1 else random_layout(rng, h, w, 0.06))
+                enc = int(rng.integers(0, 2))
+                measure = pick_measure(rng, window, h)
+                inv = [-9999.0, float("nan")][j % 2]
+                for subpix in subpixes:
+                    case = chain_case(im_l, im_r, lay_l, lay_r, enc, window, inv, measure,
+                                      disp=None if grids is not None else disp, grids=grids, subpix=subpix)
+                    viol, info = evaluate_chain(case)
+                    count += 1
+                    rec.case(key=("chain", jsonable(case)), nontrivial=info["nontrivial"],
+                             sample={"part": "chain-bands", "kind": kind, "shape": [h, w], "window": window,
+                                     "disp": list(disp), "per_pixel_grids": grids is not None, "subpix": subpix,
+                                     "measure": measure, "layout_left": lay_l, "layout_right": lay_r,
+                                     "mask": info["mask"]} if (count % 101 == 5) else None)
+                    record(rec, viol, case)
+    return count
+
+
 # stacked 1xW rows -----------------------------------------------------------------------------------------------------
 def stack_rows(spec, width=8):
     """(left layout rows or None, right layout rows or None): every row of the stacked image is one 1xW layout pair"""
@@ -390,7 +514,7 @@ def stack_rows(spec, width=8):
     return im_l, im_r, lay_l, lay_r
 
 
-def run_chain_stacked(rec, specs, intervals, enc_cycle=(0, 1)):
+def run_chain_stacked(rec, specs, intervals, enc_cycle=(0, 1), subpixes=(1,)):
     """window 1: rows are independent in the statement, so N different 1x8 layout pairs are run as one Nx8 image;
     a violation found on a row is re-run alone as a genuine 1x8 image, which is the recorded witness when it reproduces"""
     count = 0
@@ -400,23 +524,27 @@ def run_chain_stacked(rec, specs, intervals, enc_cycle=(0, 1)):
             inv = [-9999.0, float("nan")][k % 2]
             enc = enc_cycle[k % len(enc_cycle)]
             measure = ["sad", "ssd"][(k // 2) % 2]
-            case = chain_case(im_l, im_r, lay_l, lay_r, enc, 1, inv, measure, disp=disp)
+            subpix = int(subpixes[k % len(subpixes)])  # the k-th interval is run with the k-th (cyclically) subpix value
+            case = chain_case(im_l, im_r, lay_l, lay_r, enc, 1, inv, measure, disp=disp, subpix=subpix)
             viol, info = evaluate_chain(case)
             count += 1
-            rec.case(key=("stack", jsonable(spec), disp, enc, inv, measure), nontrivial=info["nontrivial"],
-                     sample={"part": "chain-stacked", "spec": spec, "rows": int(im_l.shape[0]), "disp": list(disp)}
-                     if k == 0 else None)
+            rec.case(key=("stack", jsonable(spec), disp, enc, inv, measure) + ((subpix,) if subpix != 1 else ()),
+                     nontrivial=info["nontrivial"],
+                     sample={"part": "chain-stacked", "spec": spec, "rows": int(im_l.shape[0]), "disp": list(disp),
+                             "subpix": subpix} if k == 0 else None)
             for clause, cls, msg, pixel in viol:
                 r = pixel[0]
                 small = chain_case(im_l[r : r + 1], im_r[r : r + 1], None if lay_l is None else lay_l[r : r + 1],
-                                   None if lay_r is None else lay_r[r : r + 1], enc, 1, inv, measure, disp=disp)
+                                   None if lay_r is None else lay_r[r : r + 1], enc, 1, inv, measure, disp=disp,
+                                   subpix=subpix)
                 v2, _ = evaluate_chain(small)
                 hit = [v for v in v2 if v[0] == clause and v[1] == cls]
                 if hit:
                     record(rec, hit[:1], small)
                 else:
                     wit = {"part": "chain-stacked", "spec": spec, "disp": list(disp), "enc": enc, "inv": inv,
-                           "measure": measure, "clause": clause, "witness_class": cls, "pixel": list(pixel)}
+                           "measure": measure, "subpix": subpix, "clause": clause, "witness_class": cls,
+                           "pixel": list(pixel)}
                     rec.violation(clause=clause, witness_class=cls + "/only-inside-stack", message=msg, witness=wit)
     return count
 
@@ -686,6 +814,7 @@ def run(tier: str, seed: int) -> dict:
                  "pandora.cost_volume_confidence (ambiguity, interval_bounds).confidence_prediction"):
         rec.functions.add(name)
     rng = np.random.default_rng(seed)
+    rng_sub = np.random.default_rng([seed, 4])  # own stream of the subpix x right-mask cases (the older cases keep theirs)
     STATS.clear()
     thorough = tier == "thorough"
     if thorough:
@@ -693,13 +822,23 @@ def run(tier: str, seed: int) -> dict:
                  {"kind": "left_few_x_right_all", "few": 1}, {"kind": "left_all_x_right_few", "few": 1},
                  {"kind": "random_pairs", "n": 60000, "seed": seed}]
         n_stack = run_chain_stacked(rec, specs, ALL_INTERVALS)
+        specs_sub = [{"kind": "left_none_x_right_all"}, {"kind": "left_few_x_right_all", "few": 1},
+                     {"kind": "random_pairs", "n": 30000, "seed": seed + 1}]
+        n_stack_sub = run_chain_stacked(rec, specs_sub[:1], ALL_INTERVALS, subpixes=(2,))
+        n_stack_sub += run_chain_stacked(rec, specs_sub[:1], ALL_INTERVALS, subpixes=(4,))
+        n_stack_sub += run_chain_stacked(rec, specs_sub[1:], ALL_INTERVALS, subpixes=(2, 4))
+        n_stack_sub += run_chain_stacked(rec, specs_sub[1:], ALL_INTERVALS, subpixes=(4, 2))
         n_direct = run_chain_direct(rec, rng, n_random_per_combo=30, interval_stride=1)
+        n_bands = run_chain_bands(rec, rng_sub, n_intervals=20, n_grids=5)
         n_pipe, illegal = run_pipelines(rec, rng, sizes=[(8, 10), (9, 12), (10, 13), (12, 16)], n_images=10, n_pipelines=99)
     else:
         specs = [{"kind": "left_none_x_right_all"}, {"kind": "left_all_x_right_none"},
                  {"kind": "random_pairs", "n": 12000, "seed": seed}]
         n_stack = run_chain_stacked(rec, specs, ALL_INTERVALS)
+        specs_sub = [{"kind": "left_none_x_right_all"}]
+        n_stack_sub = run_chain_stacked(rec, specs_sub, ALL_INTERVALS, subpixes=[(2, 4), (4, 2)][seed % 2])
         n_direct = run_chain_direct(rec, rng, n_random_per_combo=1, interval_stride=1)
+        n_bands = run_chain_bands(rec, rng_sub, n_intervals=2, n_grids=1)
         n_pipe, illegal = run_pipelines(rec, rng, sizes=[(8, 10), (9, 12)], n_images=2, n_pipelines=6)
     if illegal:
         raise AssertionError("harness: a pipeline of the enumeration was refused by check_pipeline_section: %r" % illegal[:3])
@@ -707,10 +846,18 @@ def run(tier: str, seed: int) -> dict:
              "invalid_disparity alternating -9999/NaN, sad/ssd, two mask encodings (%d runs); (ii) genuine 1x8 (windows 1,3), "
              "3x7 and 5x9 (windows 1,3,5) images, integer radiometry 0..11, masks over {valid,nodata,invalid} (none / all valid "
              "/ runs / random density .08,.2,.45), every scalar interval within [-4,4] + 3 per-pixel grids per image pair, "
-             "measures sad/ssd/census/zncc (%d runs); pipelines: %d runs of up to 14 repeated-step pipelines (refinement x2/x3, "
+             "measures sad/ssd/census/zncc (%d runs); (iii) subpix 2 and 4 (disparity axis oversampled) x right masks: "
+             "stacked rows %s x 45 intervals with subpix %s (%d runs), and genuine %s (rows x cols x window) images whose right "
+             "mask holds %s of masked-invalid / nodata pixels at least as wide as the global interval (left mask none / all "
+             "valid / density .06), intervals drawn from %s or per-pixel grids inside them, each run with subpix 1, 2 and 4 "
+             "(%d runs); pipelines: %d runs of up to 14 repeated-step pipelines (refinement x2/x3, "
              "filter x2, median_for_intervals x2, validation x2/x3 with none/mc-cnn/sgm filling, mixtures) on %s integer images, "
              "windows 1/3/5, subpix 1/2, invalid_disparity -9999/NaN"
-             % ("; ".join("%s" % s for s in specs), n_stack, n_direct, n_pipe,
+             % ("; ".join("%s" % s for s in specs), n_stack, n_direct,
+                "; ".join("%s" % s for s in specs_sub),
+                "2 and 4 (each)" if thorough else "2 / 4 alternating with the interval index (seed parity picks the phase)",
+                n_stack_sub, ", ".join("%dx%dx%d" % c for c in BAND_COMBOS), " / ".join(BAND_KINDS), BAND_INTERVALS, n_bands,
+                n_pipe,
                 "8x10..12x16" if thorough else "8x10, 9x12"))
     rule = ("stacked rows: layouts enumerated exhaustively (3^8 rows, fewest non-valid pixels first) or drawn with the seed; "
             "direct images and pipelines: seeded random (np.random.default_rng(seed)), small shapes first. One evaluation = "
@@ -719,7 +866,11 @@ def run(tier: str, seed: int) -> dict:
             "non-zero mask; a pipeline case is non-trivial when its final left mask takes >= 2 values on non-border pixels. "
             "All comparisons exact (integer masks; NaN-ness of costs; disparity == invalid_disparity, nan-aware). "
             "Bits 2/7 are compared only where the with-window and without-window readings of 'outside the right image' "
-            "agree and the cause is not vacuous/total.")
+            "agree and the cause is not vacuous/total. With subpix 2/4 the oracle is the same (integer candidates col+d of the "
+            "global interval: a fractional candidate is interpolated from its two integer neighbours, so it is in-image / "
+            "non-masked / computable only if both are, and no bit changes its expected value); a violation found with "
+            "subpix 2/4 is re-run with subpix 1: if it reproduces there the subpix-1 case is the witness and the class is "
+            "unchanged, otherwise the witness_class gets the suffix '/only-with-subpix>1'.")
     res = rec.result(bound=bound, rule=rule)
     res["stats"] = dict(sorted(STATS.items()))
     return res
@@ -729,9 +880,19 @@ def replay(witness: dict) -> bool:
     part = witness.get("part")
     if part == "chain":
         viol, _ = evaluate_chain(witness)
+        wanted = witness["witness_class"]
+        if wanted.endswith(SUBPIX_ONLY):  # reproduces with the witness's subpix and not with subpix 1
+            wanted = wanted[: -len(SUBPIX_ONLY)]
+            if not any(v[0] == witness["clause"] and v[1] == wanted for v in viol):
+                return False
+            base = dict(witness)
+            base["subpix"] = 1
+            v1, _ = evaluate_chain(base)
+            return not any(v[0] == witness["clause"] and v[1] == wanted for v in v1)
     elif part == "chain-stacked":
         im_l, im_r, lay_l, lay_r = stack_rows(witness["spec"])
-        case = chain_case(im_l, im_r, lay_l, lay_r, witness["enc"], 1, witness["inv"], witness["measure"], disp=witness["disp"])
+        case = chain_case(im_l, im_r, lay_l, lay_r, witness["enc"], 1, witness["inv"], witness["measure"], disp=witness["disp"],
+                          subpix=int(witness.get("subpix") or 1))
         viol, _ = evaluate_chain(case)
         return any(v[0] == witness["clause"] and v[1] + "/only-inside-stack" == witness["witness_class"] for v in viol)
     elif part == "pipeline":
